@@ -196,10 +196,10 @@ func genRepairSeq(r *rand.Rand, _ core.Tier) any {
 		ev := SeqEvent{Op: "reconcile", K: k, Now: now}
 		if mode != "cascade" {
 			if r.Float64() < 0.04 {
-				ev.NodeListFault = pick(r, []string{"err", "notfound"})
+				ev.NodeListFault = pick(r, []string{"err", "notfound", "err", "notfound", pick(r, apiErrClasses)})
 			}
 			if r.Float64() < 0.04 {
-				ev.DeleteFault = pick(r, []string{"err", "notfound"})
+				ev.DeleteFault = pick(r, []string{"err", "notfound", "err", "notfound", pick(r, apiErrClasses)})
 			}
 		}
 		in.Events = append(in.Events, ev)
@@ -344,7 +344,7 @@ func implRepairSeq(raw json.RawMessage) (any, error) {
 	c := newClient(interceptor.Funcs{
 		List: func(ctx context.Context, w client.WithWatch, list client.ObjectList, opts ...client.ListOption) error {
 			if _, ok := list.(*corev1.NodeList); ok && armed {
-				if err := faultErr(cur.NodeListFault, "nodes"); err != nil {
+				if err := apiErr(cur.NodeListFault, "nodes"); err != nil {
 					return err
 				}
 			}
@@ -353,7 +353,7 @@ func implRepairSeq(raw json.RawMessage) (any, error) {
 		Delete: func(ctx context.Context, w client.WithWatch, obj client.Object, opts ...client.DeleteOption) error {
 			if _, ok := obj.(*v1.NodeClaim); ok && armed {
 				rec.deleted(obj.GetName())
-				if err := faultErr(cur.DeleteFault, obj.GetName()); err != nil {
+				if err := apiErr(cur.DeleteFault, obj.GetName()); err != nil {
 					return err
 				}
 			}
@@ -549,10 +549,10 @@ func repairSeqLabels(raw json.RawMessage, impl any) []string {
 	for _, ev := range in.Events {
 		kinds[ev.Op]++
 		if ev.NodeListFault != "" {
-			l = append(l, "fault:nodeList")
+			l = append(l, "fault:nodeList", "fault:nodeList:"+ev.NodeListFault)
 		}
 		if ev.DeleteFault != "" {
-			l = append(l, "fault:delete")
+			l = append(l, "fault:delete", "fault:delete:"+ev.DeleteFault)
 		}
 	}
 	for k, v := range kinds {
